@@ -134,4 +134,9 @@ CLAIMS = {
    note='Model starts at decoded tokens; CAR/CBOR/CID parsing by third-party code is only exercised (raw stream). Acyclicity of the proof graph = SHA-256 collision freedom. Validator/server model assumptions as for C01/C08. Requires the C11 fix commits (DID.String guard, signature bounds, empty capability list, self-attestation exclusion, InvocationCapabilityError struct). No axioms.',
    technique='Coq proof (termination measure for the validator recursion; totality of the partial byte operations) + child-process crash observation on field-alteration product and raw mutations, receipt classes compared with the model',
    ref='5/C11'),
+ "C15": dict(
+   text="Coq (Client.v): C15_execute_total / C15_non_200 (executing through a connection yields an error value or a response; any non-200 status an error), C15_get_total / C15_receipts_total (every lookup on a response returns a value for ANY report — absent, empty, foreign-keyed — and any link), C15_empty (a response without report answers 'not found'), C15_get_some, C15_pinned_refuted (the pinned nil-report dereference, witness the empty-batch reply), C15_signature_total. Tie/search: a scripted channel answers client.Execute with crafted replies (report absent/empty/foreign; every subset of receipt and invocation blocks missing; receipts with boundary fields incl. result with neither ok nor error and dangling ran/proof/fork/join links; non-message roots; statuses 100..999; raw byte mutations): client.Execute, Get, block iteration, NewReceipt, ReceiptReader.Read and ALL receipt accessors run under recover — any panic is a violation — and the error-vs-response outcome and Get results of the structured replies must equal the model's. PARTIAL: the model starts at decoded blocks; receipt reading itself is only exercised, not modelled.",
+   note='Model starts at decoded blocks (construction knowledge of the harness); third-party CAR/CBOR parsing of arbitrary bytes only exercised (raw stream). Requires fix commits: nil-report guard in message.Get/Receipts, nil-ran guard in receipt.Blocks, rejection of results with neither ok nor error. No axioms.',
+   technique='Coq proof (totality of the response lookups over all reports and links; refutation of the pinned lookup) + recover-instrumented client runs over crafted and raw replies compared with the model',
+   ref='5/C15'),
 }
